@@ -152,6 +152,10 @@ pub fn write_replay<C: Serialize>(id: &str, case: &C, note: &str, expected: &str
     let v = serde_json::to_value(case).unwrap();
     let body = serde_json::to_vec(&v).unwrap();
     let path = dir.join(format!("{:016x}.json", fnv(&body)));
+    if path.exists() {
+        // never rewrite a committed reproduction (its note / expectation are part of the record)
+        return path.to_string_lossy().to_string();
+    }
     let rf = ReplayFile { property: id.to_string(), expected: expected.to_string(), note: note.to_string(), case: v };
     let _ = std::fs::write(&path, serde_json::to_vec_pretty(&rf).unwrap());
     path.to_string_lossy().to_string()
